@@ -1814,15 +1814,16 @@ class Job:
         self.label = _recv_label(pair)
 
 
-def _run_sweep(spec, jobs):
+def _run_sweep(spec, jobs, last_order=('old', 'new')):
     """Child process of the fast path: pair after pair, side after side, each side on its own fresh
     world; stops after the first pair on which the engine raised (its exception state poisons the
     process, everything later must run elsewhere)."""
     done = []
-    for job in jobs:
+    for n, job in enumerate(jobs):
         s = dict(spec, receiver_label=job.label)
+        order = last_order if n == len(jobs) - 1 else ('old', 'new')
         sides = {which: _run_side(s, which, job.world_fn, job.resolve, job.by_side[which], with_before=False)
-                 for which in ('old', 'new')}
+                 for which in order}
         done.append(sides)
         if any(_engine_failure(x) for x in sides.values()):
             break
@@ -1859,6 +1860,37 @@ def _confirmed(spec, job):
     return v
 
 
+def _history_dependent(spec, prefix, fast, clean):
+    """The old name and its replacement agree on this receiver in a fresh process but differed after the same
+    names had been called on other receivers earlier in one process. The sequence is repeated twice in fresh
+    processes, the second time with the two names of the last pair called in the opposite order; a difference
+    seen all three times is reported (the old name depends on what was called before it, the replacement does not
+    or not in the same way)."""
+    job = prefix[-1]
+    keys = {f.key for f in fast.failures}
+    for order in (('old', 'new'), ('new', 'old')):
+        res = isolate.call(_run_sweep, spec, prefix, order, timeout=600)
+        if not res['ok'] or len(res['value']) != len(prefix):
+            clean.classes.append('sequence_difference_not_reproduced')
+            return clean
+        if any(_engine_failure(x) for sd in res['value'] for x in sd.values()):
+            clean.classes.append('sequence_difference_not_reproduced')
+            return clean
+        again = job.evaluate(res['value'][-1])
+        keys &= {f.key for f in again.failures}
+        if not keys:
+            clean.classes.append('sequence_difference_not_reproduced')
+            return clean
+    earlier = ', '.join(j.label for j in prefix[:-1])
+    for f in fast.failures:
+        if f.key in keys:
+            clean.fail(f.key.rsplit(':', 1)[0] + ':after_calls_on_other_receivers',
+                       f'{f.msg}  [only after the same names were called on {earlier} in the same process; in a fresh '
+                       f'process the two agree]')
+    clean.classes.append('sequence_difference')
+    return clean
+
+
 def _sweep(out, spec, jobs):
     """Judge every job. Fast path: one child for as many pairs as it survives. Whatever looks like a
     difference, and whatever involved an engine failure, is decided on separately forked sides only."""
@@ -1882,7 +1914,10 @@ def _sweep(out, spec, jobs):
                 if v.failures:
                     v = None
             if v is None:
+                fast = None if any(_engine_failure(x) for sd in got[:k + 1] for x in sd.values()) else job.evaluate(sides)
                 v = _confirmed(spec, job)
+                if fast is not None and fast.failures and not v.failures and not v.skipped and k >= 1:
+                    v = _history_dependent(spec, jobs[i:i + k + 1], fast, v)
             verdicts.append(v)
         if not got:
             verdicts.append(_confirmed(spec, jobs[i]))
